@@ -1,112 +1,99 @@
 (** C13 — ROLLBACK restores exactly the state at BEGIN; COMMIT keeps the state after the last statement.
     Only pinned statements, each closed by [exact] of a lemma proved in Store/TxnLaws.v.
 
+    The code modelled is /repo with fixes/C13-rollback-rebuilds-user-indexes.patch applied: BEGIN remembers
+    (catalog, tables, definitions of the user indexes); ROLLBACK restores catalog and tables, drops every
+    storage index and creates the remembered ones again from the restored tables.
+
     [step]/[run] are the statement semantics of Store/Savepoint.v over the database model of
     Store/Txn.v; [inside o] excludes COMMIT and ROLLBACK (any other statement may sit between BEGIN and
     the closing ROLLBACK); [obs_eq] compares catalog listing, table contents, storage index listing and
-    the answer of every point query, asked through a user index where the engine would use one. *)
+    the answer of every point query, asked through a user index where the engine would use one;
+    [refresh db] is [db] with every user index rebuilt from its table; [fresh db] says the user indexes of
+    [db] already are what a rebuild produces (same definitions, same row indices under every key). *)
 From Coq Require Import List ZArith.
 From VibeSQL Require Import Value.SqlValue Store.Txn Store.Savepoint Store.TxnLaws.
 Import ListNotations.
 Open Scope Z_scope.
 
-(** the part of the property that holds for EVERY statement sequence: ROLLBACK succeeds, tables and
-    catalog are exactly those before BEGIN, no transaction is left; the user indexes are whatever the
-    statements left (they are outside the snapshot) *)
+(** for EVERY state and EVERY statement sequence (DML on indexed columns and index DDL included):
+    BEGIN; ops; ROLLBACK leaves exactly [refresh db]; it reports Ok unless an index definition of [db]
+    cannot be rebuilt (table or column missing, duplicate name) *)
+Theorem C13_rollback_is_refresh : forall (db : db) (ops : list op),
+  d_tx db = None -> Forall (fun o => inside o = true) ops ->
+  let res := step (run (fst (step db OBegin)) ops) ORollback in
+  fst res = refresh db /\ snd res = (if refresh_ok db then ROk 0 else RErr).
+Proof. exact rollback_is_refresh. Qed.
+Print Assumptions C13_rollback_is_refresh.
+
+(** tables and catalog are exactly those before BEGIN, no transaction is left *)
 Theorem C13_rollback_restores_tables_catalog : forall (db : db) (ops : list op),
   d_tx db = None -> Forall (fun o => inside o = true) ops ->
-  let after := run (fst (step db OBegin)) ops in
-  let res := step after ORollback in
-  snd res = ROk 0 /\ d_cat (fst res) = d_cat db /\ d_tabs (fst res) = d_tabs db /\
-  d_tx (fst res) = None /\ d_uix (fst res) = d_uix after.
+  let res := step (run (fst (step db OBegin)) ops) ORollback in
+  d_cat (fst res) = d_cat db /\ d_tabs (fst res) = d_tabs db /\ d_tx (fst res) = None.
 Proof. exact rollback_restores_tables_catalog. Qed.
 Print Assumptions C13_rollback_restores_tables_catalog.
 
-(** the full statement (every observation restored) is false of the faithful model: an UPDATE of an
-    indexed column inside the transaction leaves the index changed after ROLLBACK and the point query
-    through it answers differently (KNOWN: C13 rollback-user-index-not-restored) *)
-Theorem C13_rollback_restores_refuted :
-  exists (db : db) (ops : list op) t c k o,
-    d_tx db = None /\ Forall (fun o => inside o = true) ops /\
-    q_point (fst (step (run (fst (step db OBegin)) ops) ORollback)) t c k o <> q_point db t c k o.
-Proof. exact rollback_restores_refuted. Qed.
-Print Assumptions C13_rollback_restores_refuted.
-
-(** ... and CREATE INDEX inside the transaction survives the ROLLBACK on the storage side
-    (KNOWN: C13 ddl-in-transaction-not-undone) *)
-Theorem C13_rollback_ddl_refuted :
-  exists (db : db) (ops : list op),
-    d_tx db = None /\ Forall (fun o => inside o = true) ops /\
-    storage_index_listing (fst (step (run (fst (step db OBegin)) ops) ORollback)) <> storage_index_listing db.
-Proof. exact rollback_ddl_refuted. Qed.
-Print Assumptions C13_rollback_ddl_refuted.
-
-(** the true statement under the exact side condition: when no statement of the transaction touches
-    a user index ([leaves_indexes]: no CREATE INDEX, DROP INDEX only of names the storage does not
-    hold, INSERT/UPDATE/DELETE only on tables without a user index), the rolled-back database IS the
-    database before BEGIN *)
+(** the property: from a state whose user indexes mirror their tables, every observation after
+    ROLLBACK equals the one before BEGIN, for every statement sequence *)
 Theorem C13_rollback_restores : forall (db : db) (ops : list op),
-  d_tx db = None -> Forall (fun o => inside o = true) ops ->
-  Forall (fun o => leaves_indexes (d_uix db) o = true) ops ->
-  fst (step (run (fst (step db OBegin)) ops) ORollback) = db.
+  d_tx db = None -> fresh db -> Forall (fun o => inside o = true) ops ->
+  let res := step (run (fst (step db OBegin)) ops) ORollback in
+  snd res = ROk 0 /\ d_cat (fst res) = d_cat db /\ d_tabs (fst res) = d_tabs db /\
+  d_tx (fst res) = None /\ uix_equiv (d_uix (fst res)) (d_uix db) /\ obs_eq (fst res) db.
 Proof. exact rollback_restores. Qed.
 Print Assumptions C13_rollback_restores.
 
-Theorem C13_rollback_restores_obs : forall (db : db) (ops : list op),
-  d_tx db = None -> Forall (fun o => inside o = true) ops ->
-  Forall (fun o => leaves_indexes (d_uix db) o = true) ops ->
-  obs_eq (fst (step (run (fst (step db OBegin)) ops) ORollback)) db.
-Proof. exact rollback_restores_obs. Qed.
-Print Assumptions C13_rollback_restores_obs.
-
-(** no later statement sequence can tell the rolled-back database from the original *)
-Theorem C13_rollback_then_continue : forall (db : db) (ops epilogue : list op),
-  d_tx db = None -> Forall (fun o => inside o = true) ops ->
-  Forall (fun o => leaves_indexes (d_uix db) o = true) ops ->
-  run (fst (step (run (fst (step db OBegin)) ops) ORollback)) epilogue = run db epilogue.
-Proof. exact rollback_then_continue. Qed.
-Print Assumptions C13_rollback_then_continue.
-
-(** the case named in the property: no user index exists and none is created *)
+(** no user index before BEGIN: the rolled-back database IS the database before BEGIN (also when the
+    transaction created indexes) ... *)
 Theorem C13_rollback_restores_without_user_indexes : forall (db : db) (ops : list op),
-  d_tx db = None -> d_uix db = [] ->
-  Forall (fun o => inside o = true) ops -> Forall (fun o => creates_index o = false) ops ->
-  fst (step (run (fst (step db OBegin)) ops) ORollback) = db.
+  d_tx db = None -> d_uix db = [] -> Forall (fun o => inside o = true) ops ->
+  let res := step (run (fst (step db OBegin)) ops) ORollback in
+  fst res = db /\ snd res = ROk 0.
 Proof. exact rollback_restores_without_user_indexes. Qed.
 Print Assumptions C13_rollback_restores_without_user_indexes.
 
-(** exactly which part of the observation can differ, for every statement sequence: the storage
-    index listing and the point queries evaluated on the restored tables through the left-over
-    index contents *)
-Theorem C13_rollback_obs_iff_index_part : forall (db : db) (ops : list op),
+(** ... and no later statement sequence can tell the difference *)
+Theorem C13_rollback_then_continue_without_user_indexes : forall (db : db) (ops epilogue : list op),
+  d_tx db = None -> d_uix db = [] -> Forall (fun o => inside o = true) ops ->
+  run (fst (step (run (fst (step db OBegin)) ops) ORollback)) epilogue = run db epilogue.
+Proof. exact rollback_then_continue_without_user_indexes. Qed.
+Print Assumptions C13_rollback_then_continue_without_user_indexes.
+
+(** the exact condition, for every state and statement sequence: the observation is restored iff
+    rebuilding the indexes of the original state changes no observation *)
+Theorem C13_rollback_obs_iff : forall (db : db) (ops : list op),
   d_tx db = None -> Forall (fun o => inside o = true) ops ->
-  let after := run (fst (step db OBegin)) ops in
-  let rolled := fst (step after ORollback) in
-  obs_eq rolled db <->
-  (storage_index_listing after = storage_index_listing db /\
-   forall t c k o, q_point (mkDb (d_cat db) (d_tabs db) (d_uix after) None) t c k o = q_point db t c k o).
-Proof. exact rollback_obs_iff_index_part. Qed.
-Print Assumptions C13_rollback_obs_iff_index_part.
+  obs_eq (fst (step (run (fst (step db OBegin)) ops) ORollback)) db <-> obs_eq (refresh db) db.
+Proof. exact rollback_obs_iff. Qed.
+Print Assumptions C13_rollback_obs_iff.
 
-(** growing transactions -- INSERTs (SQL or storage API), UPDATEs that assign a column no user index
-    covers, SAVEPOINT / RELEASE / record_change -- with ANY user indexes in ANY state: every observation
-    right after ROLLBACK equals the one before BEGIN (the index entries the transaction left behind
-    point past the end of the restored tables) ... *)
-Theorem C13_rollback_restores_obs_growing : forall (db : db) (ops : list op),
-  d_tx db = None -> Forall (fun o => grows_only (d_uix db) o = true) ops ->
-  obs_eq (fst (step (run (fst (step db OBegin)) ops) ORollback)) db.
-Proof. exact rollback_restores_obs_growing. Qed.
-Print Assumptions C13_rollback_restores_obs_growing.
+(** the two witnesses that refuted C13 before the repair are restored now: UPDATE of an indexed
+    column inside the transaction (was C13_rollback_restores_refuted) ... *)
+Theorem C13_rollback_restores_former_witness_update :
+  d_uix (run (fst (step wit13_db OBegin)) wit13_ops) <> d_uix wit13_db /\
+  fst (step (run (fst (step wit13_db OBegin)) wit13_ops) ORollback) = wit13_db.
+Proof. exact rollback_restores_former_witness_update. Qed.
+Print Assumptions C13_rollback_restores_former_witness_update.
 
-(** ... but the state is not restored: one committed INSERT after the ROLLBACK is answered twice
-    through the index (confirmed on the real code) *)
-Theorem C13_rollback_insert_only_continuation_refuted :
-  exists (db : db) (ops epilogue : list op) t c k o,
-    d_tx db = None /\ Forall (fun o => grows_only (d_uix db) o = true) ops /\
-    q_point (run (fst (step (run (fst (step db OBegin)) ops) ORollback)) epilogue) t c k o
-    <> q_point (run db epilogue) t c k o.
-Proof. exact rollback_insert_only_continuation_refuted. Qed.
-Print Assumptions C13_rollback_insert_only_continuation_refuted.
+(** ... and CREATE INDEX inside the transaction (was C13_rollback_ddl_refuted) *)
+Theorem C13_rollback_restores_former_witness_ddl :
+  let db := mkDb (mkCat [0] []) [(0, mkTable [TInt; TInt] [])] [] None in
+  storage_index_listing (run (fst (step db OBegin)) [OCreateIndex 0 0 1%nat]) <> storage_index_listing db /\
+  fst (step (run (fst (step db OBegin)) [OCreateIndex 0 0 1%nat]) ORollback) = db.
+Proof. exact rollback_restores_former_witness_ddl. Qed.
+Print Assumptions C13_rollback_restores_former_witness_ddl.
+
+(** without [fresh] the statement is false: a state whose index was left stale by ROLLBACK TO
+    SAVEPOINT (C14 / C15: the undo does not maintain user indexes) is REPAIRED by BEGIN; ROLLBACK, so a
+    query that answered wrongly before BEGIN answers correctly afterwards (confirmed on the engine;
+    the defect is the stale index, not the ROLLBACK) *)
+Theorem C13_rollback_restores_stale_refuted :
+  exists (db : db) (ops : list op) t c k o,
+    d_tx db = None /\ Forall (fun o => inside o = true) ops /\
+    q_point (fst (step (run (fst (step db OBegin)) ops) ORollback)) t c k o <> q_point db t c k o.
+Proof. exact rollback_restores_stale_refuted. Qed.
+Print Assumptions C13_rollback_restores_stale_refuted.
 
 (** COMMIT: succeeds and changes nothing but the transaction state, in every state with an active
     transaction ... *)
